@@ -357,6 +357,13 @@ Definition pr_lrepr_types : list str := [
   [117%N; 117%N; 105%N; 100%N; 46%N; 85%N; 85%N; 73%N; 68%N] (* uuid.UUID *)
 ].
 Definition pr_print_defaults : list (str * N) := [([80%N; 82%N; 73%N; 78%N; 84%N; 95%N; 68%N; 85%N; 80%N], 0%N); ([80%N; 82%N; 73%N; 78%N; 84%N; 95%N; 76%N; 69%N; 78%N; 71%N; 84%N; 72%N], 0%N); ([80%N; 82%N; 73%N; 78%N; 84%N; 95%N; 76%N; 69%N; 86%N; 69%N; 76%N], 0%N); ([80%N; 82%N; 73%N; 78%N; 84%N; 95%N; 77%N; 69%N; 84%N; 65%N], 0%N); ([80%N; 82%N; 73%N; 78%N; 84%N; 95%N; 78%N; 65%N; 77%N; 69%N; 83%N; 80%N; 65%N; 67%N; 69%N; 95%N; 77%N; 65%N; 80%N; 83%N], 0%N); ([80%N; 82%N; 73%N; 78%N; 84%N; 95%N; 82%N; 69%N; 65%N; 68%N; 65%N; 66%N; 76%N; 89%N], 1%N)].
+(* C03 extension: seq_lrepr / map_lrepr test print_level and print_length under `not print_dup and` *)
+Definition pr_trunc_guards : list (str * bool) := [
+  ([115%N; 101%N; 113%N; 95%N; 108%N; 114%N; 101%N; 112%N; 114%N; 46%N; 112%N; 114%N; 105%N; 110%N; 116%N; 95%N; 108%N; 101%N; 118%N; 101%N; 108%N], true) (* seq_lrepr.print_level *);
+  ([115%N; 101%N; 113%N; 95%N; 108%N; 114%N; 101%N; 112%N; 114%N; 46%N; 112%N; 114%N; 105%N; 110%N; 116%N; 95%N; 108%N; 101%N; 110%N; 103%N; 116%N; 104%N], true) (* seq_lrepr.print_length *);
+  ([109%N; 97%N; 112%N; 95%N; 108%N; 114%N; 101%N; 112%N; 114%N; 46%N; 112%N; 114%N; 105%N; 110%N; 116%N; 95%N; 108%N; 101%N; 118%N; 101%N; 108%N], true) (* map_lrepr.print_level *);
+  ([109%N; 97%N; 112%N; 95%N; 108%N; 114%N; 101%N; 112%N; 114%N; 46%N; 112%N; 114%N; 105%N; 110%N; 116%N; 95%N; 108%N; 101%N; 110%N; 103%N; 116%N; 104%N], true) (* map_lrepr.print_length *)
+].
 
 (* ---- C06 (harness/tr/tr_lazyseq.py): copies of what the translator emits for the working tree ---- *)
 (* seq.rs: the four-state enum, the transcribed LazySeq::seq / Sequence::__call__ / SeqIterator::__next__ / to_seq *)
